@@ -571,7 +571,13 @@ class KeychainSqlite3(Keychain):
         if name not in self:
             self.conn.execute('INSERT INTO identities (identity) VALUES (?)', (name,))
             self.conn.commit()
-            self.new_key(name)
+            try:
+                self.new_key(name)
+            except Exception:
+                self.conn.rollback()
+                self.conn.execute('DELETE FROM identities WHERE identity=?', (name,))
+                self.conn.commit()
+                raise
         if not self.has_default_identity():
             self.set_default_identity(name)
         return self[name]
